@@ -4,7 +4,7 @@ import json, os, time, subprocess, hashlib, concurrent.futures
 from common import *
 import tlcout
 
-MAIN = [["sym", "alpha"], ["egraph", ""], ["sym", "beta"], ["fresh", ""], ["egraph", ""], ["named", "xname"]]
+MAIN = [["sym", "alpha"], ["egraph", ""], ["sym", "beta"], ["fresh", ""], ["egraph", ""], ["named", "xname"], ["timed", ""]]
 NOISE = [["sym", "zeta"], ["fresh", ""], ["sym", "beta"], ["egraph", ""]]
 
 
@@ -24,7 +24,9 @@ def run_c20(tier):
         exe = os.path.join(d, "th_replay")
 
         def run(s):
-            p = subprocess.run([exe, s], stdout=subprocess.PIPE, stderr=subprocess.PIPE, timeout=120)
+            # per-process load: the hooks of the timed runs sleep 0 / 20 / 40 ms per iteration
+            delay = 0 if s == "solo" else 20 * (sum(i for i, c in enumerate(s) if c == "n") % 3)
+            p = subprocess.run([exe, s], stdout=subprocess.PIPE, stderr=subprocess.PIPE, timeout=120, env=dict(os.environ, VERIF_TH_DELAY=str(delay)))
             return p.returncode, p.stdout, p.stderr[-500:].decode(errors="replace")
         rc, ref, err = run("solo")
         if rc != 0:
@@ -53,8 +55,8 @@ def run_c20(tier):
     cov = {"states": st["distinct"], "transitions": st["generated"], "traces_validated_against_impl": nrun,
            "samples": [{"schedule": scheds[17]["sched"], "global_symbol_interning_order": scheds[17]["symorder"]}, {"transcript_head": sample}],
            "evaluations": nrun, "distinct_nontrivial": len({json.dumps(s["symorder"]) for s in scheds}),
-           "rule": "Threads.tla: all %d interleavings of a 6-operation main history (symbols, e-graph work, fresh and named slots, rewriting, "
-                   "matching, extraction, dump) with a 4-operation noise thread (interns the main thread's symbols first, draws fresh slots, "
+           "rule": "Threads.tla: all %d interleavings of a 7-operation main history (symbols, e-graph work, fresh and named slots, rewriting, "
+                   "matching, extraction, dump, run_eqsat / Runner with a 30 s time limit under a per-process hook delay of 0/20/40 ms) with a 4-operation noise thread (interns the main thread's symbols first, draws fresh slots, "
                    "interns the same slot names, rewrites its own e-graph); invariant Reproducible on the model; every schedule executed with real "
                    "threads (channel hand-shake) in a fresh process, stdout compared byte for byte with the solo run; distinct = distinct global "
                    "symbol interning orders" % len(scheds),
